@@ -94,6 +94,13 @@ theorem Qvec_rotates (lam : ℝ) (r : M3 ℝ) (hr : IsOrthogonal r) (bi bf : V3 
   simp only [M3.mulVec, V3.sub, V3.sdiv]
   congr 1 <;> ring
 
+/-- dtype contract of the components: single precision iff the wavelength is single precision; integer
+wavelengths give double precision (never an integer result) -/
+theorem q_result_dtype (w : Inelastic.DType) :
+    (qResultDType w = .f32 ↔ w = .f32) ∧ (w ≠ .f32 → qResultDType w = .f64)
+      ∧ qResultDType w ≠ .i64 ∧ qResultDType w ≠ .i32 := by
+  cases w <;> decide
+
 /-! ## hkl -/
 
 /-- `2π·R·UB·hkl = Q⃗` whenever `R·UB` is non-singular -/
